@@ -140,15 +140,27 @@ Proof. exact (is_allowed_cur role_loop_iterates_snapshot grant_checks_field role
    the answer passes the oracle `sat_query` used by `satisfies`: errors exactly for malformed
    requests, otherwise the declared decision. *)
 Theorem model_answer_satisfies_oracle :
-  forall c S sysr q,
+  forall c S srules sysr q,
   qout q = is_allowed_gen c S sysr (qws q) (qop q) (qres q) (qflds q) (qroles q) ->
+  (forall t, find_type S (qws q) (qres q) = Some t -> srules (qws q) t = all_rules S (qws q)) ->
   (is_nil (qroles q) = false ->
    expand_gen (c_aliased c) (c_closure c) S (qws q) (qroles q) = Some (spec_roles S (qws q) (qroles q))) ->
   (forall t fs, find_type S (qws q) (qres q) = Some t -> tflds t = Some fs ->
      NoDup fs /\ fs <> [] /\
      (c_chkfield c = true \/ rules_wf (qop q) t (spec_roles S (qws q) (qroles q)) fs (all_rules S (qws q)))) ->
-  sat_query S sysr q = true.
+  sat_query S srules sysr q = true.
 Proof. exact sat_query_link. Qed.
+
+(* The oracle reads a declared GRANT ALL / REVOKE ALL as "every operation applicable to the
+   resource asked about"; the code gives the rule the operations of the first type its filter
+   matches.  The two readings coincide whenever the matched types have the same applicable
+   operations (always so for rules written in VSQL: tables, views and functions have separate
+   statement forms). *)
+Theorem grant_all_reading :
+  forall S d t, dall d = true -> In t (vis_types S (dws d)) -> fmatch (rflt (drl d)) t = true ->
+  (forall t', In t' (vis_types S (dws d)) -> fmatch (rflt (drl d)) t' = true -> taclops t' = taclops t) ->
+  rops (eff_rule S d) = taclops t.
+Proof. exact eff_rule_uniform. Qed.
 
 (* ===== the shapes found before the repairs (kept as witnesses over explicit flag values) ===== *)
 
@@ -302,13 +314,26 @@ Example role_cycle_nonvacuous :
   rra_any acl_rra_closure S 10 20 = Some [10; 11] /\ is_allowed S 99 20 acl_op_select 14 [] [10] = OAllow.
 Proof. vm_compute. repeat split. Qed.
 
+Example declared_order_nonvacuous :
+  let S0 := mkSchema [ex_role 11; mkTyp 14 5 20 [] (Some [0; 1; 4; 5]) true false false true [1; 2; 3; 4; 5];
+                      mkTyp 16 12 20 [] (Some [0; 5]) false false false true [1; 2; 5]] [mkWs 20 [] []] in
+  let g := mkD 20 0 false (mkRule [acl_op_select] true (FQNames [14]) [] 11) in
+  let r := mkD 20 0 false (mkRule [acl_op_select] false (FQNames [14]) [] 11) in
+  let all := mkD 20 0 true (mkRule [] true (FQNames [14; 16]) [] 11) in
+  is_allowed (install S0 [g; r; g]) 99 20 acl_op_select 14 [] [11] = OAllow /\
+  is_allowed (install S0 [g; r]) 99 20 acl_op_select 14 [] [11] = ODeny /\
+  is_allowed (install S0 [r; g; r]) 99 20 acl_op_select 14 [] [11] = ODeny /\
+  rops (eff_rule S0 all) = [1; 2; 3; 4; 5] /\
+  map rops (spec_rules S0 [all] 20 (mkTyp 16 12 20 [] (Some [0; 5]) false false false true [1; 2; 5])) = [[1; 2; 5]].
+Proof. vm_compute. repeat split. Qed.
+
 Example link_nonvacuous :
   let q := mkQ 20 acl_op_select 14 [1; 5] [13; 10; 11; 12] OAllow in
   qout q = is_allowed_gen found_cfg ex_schema 99 20 acl_op_select 14 [1; 5] [13; 10; 11; 12] /\
   expand_gen true false ex_schema 20 (qroles q) = Some (spec_roles ex_schema 20 (qroles q)) /\
-  sat_query ex_schema 99 q = true /\ sat_query ex_schema 99 (mkQ 20 acl_op_select 14 [1; 5] [13; 10; 11; 12] ODeny) = false /\
-  sat_query ex_schema 99 (mkQ 20 acl_op_select 14 [7] [13] (OErr 1)) = true /\
-  sat_query ex_schema 99 (mkQ 20 acl_op_select 14 [7] [13] ODeny) = false.
+  sat_query ex_schema (fun w _ => all_rules ex_schema w) 99 q = true /\ sat_query ex_schema (fun w _ => all_rules ex_schema w) 99 (mkQ 20 acl_op_select 14 [1; 5] [13; 10; 11; 12] ODeny) = false /\
+  sat_query ex_schema (fun w _ => all_rules ex_schema w) 99 (mkQ 20 acl_op_select 14 [7] [13] (OErr 1)) = true /\
+  sat_query ex_schema (fun w _ => all_rules ex_schema w) 99 (mkQ 20 acl_op_select 14 [7] [13] ODeny) = false.
 Proof. vm_compute. repeat split. Qed.
 
 Print Assumptions fields_fold_is_last_rule_wins.
@@ -327,6 +352,7 @@ Print Assumptions expansion_exact.
 Print Assumptions expansion_sound.
 Print Assumptions access_decision_is_declared.
 Print Assumptions model_answer_satisfies_oracle.
+Print Assumptions grant_all_reading.
 Print Assumptions decision_refuted_without_field_check.
 Print Assumptions decision_is_declared_semantics_either_shape.
 Print Assumptions expansion_refuted_when_aliased.
